@@ -233,12 +233,15 @@ Lemma flush_wrapping_out s s' : flush_wrapping s = Ok s' -> pfc s ->
   pfc s' /\ out_stream s' = out_stream s /\ wrapping s' = None.
 Proof.
   intros H Hp. unfold flush_wrapping in H. destruct (wrapping s) as [w|] eqn:Ew.
-  - destruct (take_trailing_fragments w) as [w1 frags] eqn:Et. bind_inv H ls Hls. ok_inv H.
+  - destruct (take_trailing_fragments w) as [w1 frags] eqn:Et. bind_inv H lm Hlm. ok_inv H.
+    pose proof (wb_into_lines_markers_fst _ _ Hlm) as Hls.
+    pose proof (no_content_text _ (wb_into_lines_markers_no_content _ _ Hlm)) as Hmk.
+    destruct lm as [ls mk]. cbn [fst snd] in *.
     destruct (take_frags_stream _ _ _ Et) as [Eb Ef].
     assert (Hp0 : pfc (set_wrapping s None)) by exact Hp.
     destruct (extend_lines_out (map RText ls) _ Hp0) as (A & B & C).
     sprj. split; [|split].
-    + unfold pfc, pf_text in *. sprj. rewrite flat_map_app, A, Ef. reflexivity.
+    + unfold pfc, pf_text in *. sprj. rewrite !flat_map_app, A, Ef, Hmk. reflexivity.
     + unfold out_stream. sprj. rewrite C, B. sprj. rewrite Ew. cbn [wstream].
       rewrite app_nil_r, lstream_RText, (bstream_into_lines _ _ Hls), Eb. reflexivity.
     + exact C.
